@@ -26,7 +26,7 @@ static void run_mk(vrt::Exec& x)
     vrt::g_cell = vrt::CellStats();
     vrt::g_cell.throwsLeft = (int)x.param("maxthrows", 0);
     vrt::g_cell.midThrows = false;  // deferred tasks throw before modifying (values stay sequences of applied digits)
-    D* A = x.make<D>("w", 0L);
+    D* A = x.make<D>("w", Cell(0L, Cell::Temp{}));
     auto futs = std::make_shared<std::vector<Fut>>();
     auto futm = std::make_shared<std::mutex>();  // (a real std::mutex would be substituted too; only touched by the baton holder)
     int tid = 0;
